@@ -3,6 +3,7 @@
   Theorems about the model of hashstructure (`HS.hs`), which the `cfghash` engine compares bit for
   bit with the real ConfigHash on every run.
 -/
+import Kvass.Pins.Cfg
 import Kvass.Model.HStruct
 
 namespace Kvass.Props.C16
